@@ -164,6 +164,18 @@ CHECKS["C10"] = dict(
     note="Counterexamples are replayed in child interpreters under PYTHONHASHSEED 0..11. Stubs as in C08 plus recorded open()/"
          "ensure_path. Outside: clean_file file I/O, IPv6.")
 
+CHECKS["C07"] = dict(
+    text="Bounded model checking / symbolic execution of the real filter registry and filtering code: every history of <=3 (quick) / "
+         "<=4 (thorough) operations (add_filter on a spec, an implementation, a parser or a combiner; content loads that post-filter "
+         "with the look-up result; get_filters on the spec and both implementations) - each look-up must return exactly the union "
+         "registered so far; AllowFilter.filter_content, Cleaner.clean_content(allowlist) and apply_filters on lines whose containment "
+         "of each filter is a symbolic boolean (every matrix) with symbolic budgets in [1,3]: kept lines are an order-preserving "
+         "sub-sequence, each contains a filter, the last match of every filter is kept, a matching line is only dropped when enough "
+         "kept lines below it match each of its filters; the argv built for grep -F on symbolic filter strings (incl. leading "
+         "dashes and regex metacharacters) denotes exactly the filter set under grep's argument contract (replayed with the real "
+         "grep); a filterable spec without filters raises NoFilterException under a host context.",
+    note="Outside: filters.yaml loading (yaml C code), filters containing newlines, grep's own matching beyond replay.")
+
 NOT_APPLICABLE = {
 }
 
